@@ -147,8 +147,10 @@ def check_json(ctx: Ctx) -> None:
     asg = [x for x in stmts_of(s) if isinstance(x, ast.Assign) and isinstance(x.targets[0], ast.Attribute) and x.targets[0].attr.endswith("__schema")]
     ok = len(asg) == 1 and "to_schema" in norm_stmt(asg[0].value)
     if ok:
-        conds = [(norm_stmt(cfgs.ast[t].test).replace("_JSONGrammar", ""), val) for t, val in branch_conditions(cfgs, cfgs.node_of(asg[0])) if cfgs.kind[t] == "test"]
-        ok = conds == [("not self.__schema", True)]
+        from gv.props.shared import literal_facts as _lf
+
+        fs = {k.replace("_JSONGrammar", ""): v for k, v in _lf(cfgs, cfgs.node_of(asg[0])).items()}
+        ok = fs == {"self.__schema": False}
     ctx.ob("15.1-lazy-validator", cname(JG, "JSONGrammar", "schema"), ok, "the schema is rebuilt from the builder exactly when the cache is empty", node=(asg or [s])[0])
     # the cached schema embeds the required names: they must invalidate it too
     in_window = asg and any(isinstance(w, ast.With) and any("__sync_required_names" in norm_stmt(i.context_expr) for i in w.items) and any(sub is asg[0] for sub in ast.walk(w)) for w in ast.walk(s))
@@ -352,12 +354,9 @@ def check_base(ctx: Ctx) -> None:
     ra = [s for s in stmts_of(f) if isinstance(s, ast.Raise)]
     ok = len(ra) == 1
     if ok:
-        lits = []
-        for t, v in branch_conditions(cfg, cfg.node_of(ra[0])):
-            if cfg.kind[t] == "test" and v:
-                lits += conj_literals(cfg.ast[t].test)
-        got = sorted((p, norm_stmt(e)) for p, e in lits)
-        ok = got == [(False, "data_is_valid"), (True, "raise_exception")]
+        from gv.props.shared import literal_facts as _lf
+
+        ok = _lf(cfg, cfg.node_of(ra[0])) == {"data_is_valid": False, "raise_exception": True}
     ctx.ob("15.4-order", con, ok, "an exception is raised iff the data is invalid and raise_exception is set", node=(ra or [f])[0])
 
 
